@@ -31,7 +31,8 @@ pub fn c15_space(rd: &Rendered, step: u8) -> (bool, bool) {
                     let a = line_of(&ls, x.open.0);
                     let b = line_of(&ls, x.open.1.saturating_sub(1));
                     let c = line_of(&ls, x.close.0);
-                    (a..=b).contains(&w) || c == w
+                    let d = line_of(&ls, x.close.1.saturating_sub(1));
+                    (a..=b).contains(&w) || (c..=d).contains(&w)
                 }) {
                     return (false, starts_clean);
                 }
@@ -42,11 +43,13 @@ pub fn c15_space(rd: &Rendered, step: u8) -> (bool, bool) {
 }
 
 pub fn judge_one(ctx: &mut Ctx, rd: &Rendered, sp: &Sp, cfg: &Cfg, step: u8, gen_name: &str) {
+    // the same configuration step read off different clocks (fractional seconds, other zone)
+    let cfg = &if gen_name == "replay" { cfg.clone() } else { vary_cfg(cfg, step, hash64(&[rd.text.as_bytes()])) };
     if judge::recognition_in_dispute(&rd.text, sp) {
         ctx.skip("tag recognition in dispute on this rendering (KF-C08)");
         return;
     }
-    let from_gate = matches!(gen_name, "ast-crlf" | "replay");
+    let from_gate = matches!(gen_name, "ast-crlf" | "replay" | "wrapper-child+tail" | "junk-atoms" | "mutated");
     if (from_gate && !judge::spans_subset(rd, sp)) || (!from_gate && !judge::spans_consistent(rd, sp)) {
         ctx.skip("delimiter characters occur outside tags under this spelling (generator self-check)");
         return;
@@ -58,10 +61,19 @@ pub fn judge_one(ctx: &mut Ctx, rd: &Rendered, sp: &Sp, cfg: &Cfg, step: u8, gen
     let (wrappers_ok, starts_clean) = c15_space(rd, step);
     let space = wrappers_ok && starts_clean;
     if !wrappers_ok {
+        if ctx.prop == "C17" {
+            // the geometry model does not apply, the law over the reported regions does
+            law_only(ctx, rd, sp, cfg, step, gen_name);
+            return;
+        }
         ctx.skip("outside the C15 space (tag on / blank unwrap wrapper line)");
         return;
     }
     if ctx.prop != "C16" && !space {
+        if ctx.prop == "C17" {
+            law_only(ctx, rd, sp, cfg, step, gen_name);
+            return;
+        }
         ctx.skip("outside the C15 space (file starts with a line break)");
         return;
     }
@@ -79,7 +91,17 @@ pub fn judge_one(ctx: &mut Ctx, rd: &Rendered, sp: &Sp, cfg: &Cfg, step: u8, gen
     let v = match ctx.prop.as_str() {
         "C15" => rep.c15.clone(),
         "C16" => rep.c16.clone(),
-        _ => rep.c17.clone(),
+        _ => {
+            // second, independent verdict: the law over the regions reported at the hooks
+            let (law, seen, listed) = judge::c17_law(&rd.text, sp, cfg);
+            ctx.count_n("law:pending-regions-decided", seen as u64);
+            ctx.count_n("law:pending-regions-listed", listed as u64);
+            match (&rep.c17, law) {
+                (judge::V::Violated(_), _) => rep.c17.clone(),
+                (_, judge::V::Violated(m)) => judge::V::Violated(format!("[law over reported regions] {m}")),
+                _ => rep.c17.clone(),
+            }
+        }
     };
     let v = match v {
         judge::V::Violated(m) => judge::V::Violated(format!("{m} :: {:?}", trunc(&rd.text, 400))),
@@ -93,6 +115,48 @@ pub fn judge_one(ctx: &mut Ctx, rd: &Rendered, sp: &Sp, cfg: &Cfg, step: u8, gen
         }
     }
     record(ctx, &v, gen_name, h, || doc_replay("list", rd, sp, cfg, step));
+}
+
+/// C17 for documents outside the geometry model: only the law over the reported regions.
+fn law_only(ctx: &mut Ctx, rd: &Rendered, sp: &Sp, cfg: &Cfg, step: u8, gen_name: &str) {
+    ctx.before_exec(|| doc_replay("list", rd, sp, cfg, step));
+    ctx.eval();
+    ctx.count(&format!("gen:{gen_name}"));
+    ctx.count("judged-by-law-only (outside the geometry model)");
+    let (law, seen, listed) = judge::c17_law(&rd.text, sp, cfg);
+    ctx.count_n("law:pending-regions-decided", seen as u64);
+    ctx.count_n("law:pending-regions-listed", listed as u64);
+    let v = match law {
+        judge::V::Violated(m) => judge::V::Violated(format!("[law over reported regions] {m} :: {:?}", trunc(&rd.text, 400))),
+        o => o,
+    };
+    let h = hash64(&[rd.text.as_bytes(), sp.ds.as_bytes(), b"law"]);
+    record(ctx, &v, gen_name, h, || doc_replay("list", rd, sp, cfg, step));
+}
+
+/// The law on arbitrary text (no reference parse, no admission gate).
+fn law_text(ctx: &mut Ctx, text: &str, sp: &Sp, cfg: &Cfg, gen_name: &str) {
+    let rp = || json!({"kind": "list-law", "text": text, "sp": sp.json(), "cfg": cfg.json()});
+    ctx.before_exec(rp);
+    ctx.eval();
+    ctx.count(&format!("gen:{gen_name}"));
+    let (law, seen, listed) = judge::c17_law(text, sp, cfg);
+    ctx.count_n("law:pending-regions-decided", seen as u64);
+    ctx.count_n("law:pending-regions-listed", listed as u64);
+    let v = match law {
+        judge::V::Violated(m) => judge::V::Violated(format!("[law over reported regions] {m} :: {:?}", trunc(text, 400))),
+        o => o,
+    };
+    let h = hash64(&[text.as_bytes(), sp.ds.as_bytes(), b"law"]);
+    record(ctx, &v, gen_name, h, rp);
+}
+
+pub fn replay_law(ctx: &mut Ctx, v: &Value) -> Result<(), String> {
+    let text = v.get("text").and_then(|x| x.as_str()).ok_or("no text")?;
+    let sp = Sp::from_json(v.get("sp").ok_or("no sp")?).ok_or("bad sp")?;
+    let cfg = Cfg::from_json(v.get("cfg").ok_or("no cfg")?).ok_or("bad cfg")?;
+    law_text(ctx, text, &sp, &cfg, "replay");
+    Ok(())
 }
 
 /// Sibling strings for C17: each sibling is one of P, R, R[P], R[PP], P[R], P[P], RU[P] (ready
@@ -174,18 +238,64 @@ pub fn run(ctx: &mut Ctx) {
             let sp = if idx.len() % 2 == 0 { default_sp() } else { short_sp() };
             let rd = render(&d, &sp);
             judge_one(ctx, &rd, &sp, &cfg, STEP, "siblings");
-            if ctx.past(if is17 { 0.5 } else { 0.25 }) {
+            if ctx.past(if is17 { 0.42 } else { 0.25 }) {
                 stop = true;
                 ctx.count("siblings-cut-short");
             }
         });
     }
     ctx.note("sibling_strings_max_len", json!(maxlen));
+    if is17 {
+        // ---- thresholds in the merge of pending into ready regions: a tail of K pending elements
+        // (K around 32 / 64 / 128) behind (a) the wrapper-line child templates (a pending region that
+        // starts inside a ready half and ends outside it), (b) sibling strings
+        let sp = short_sp();
+        let ks: [usize; 6] = [0, 5, 33, 40, 66, 130];
+        let mut rank = shard;
+        while let Some(s) = wrapper_child_template(rank, &sp) {
+            if ctx.past(0.50) {
+                ctx.count("wrapper-child+tail-cut-short");
+                break;
+            }
+            let picks: Vec<usize> = if quick { vec![ks[(rank / n) as usize % 6], ks[2 + (rank / n) as usize % 4]] } else { ks.to_vec() };
+            for k in picks {
+                let mut t = s.clone();
+                for j in 0..k {
+                    t.push_str(&format!("\n{}{} name='zzz'{}\n  t{j}();\n{}/{}{}", sp.ds, sp.mk, sp.de, sp.ds, sp.mk, sp.de));
+                }
+                t.push('\n');
+                match admit(&t, &sp, &cfg) {
+                    Ok(rd) => judge_one(ctx, &rd, &sp, &cfg, 1, "wrapper-child+tail"),
+                    Err(why) => ctx.skip(why),
+                }
+            }
+            rank += n;
+        }
+        let total = 4_000 * scale;
+        for i in (shard..total).step_by(n as usize) {
+            if ctx.past(0.56) {
+                break;
+            }
+            let mut r = Rng::for_case(seed, 86, i);
+            let mut d = vec![text("top();\n")];
+            for _ in 0..r.range(1, 4) {
+                let k = r.below(SIBLING_KINDS);
+                d.extend(sibling(k, &mut r));
+            }
+            let k = ks[1 + r.below(5)];
+            for _ in 0..k {
+                d.extend(sibling(if r.chance(1, 8) { 5 } else { 0 }, &mut r));
+            }
+            let sp = if i % 2 == 0 { default_sp() } else { short_sp() };
+            let rd = render(&d, &sp);
+            judge_one(ctx, &rd, &sp, &cfg, STEP, "siblings+tail");
+        }
+    }
     // ---- G-ast block documents of the C15 space (a third with inline elements, a tenth with
     // CRLF line ends for C15 / C17), at configuration steps 0..4
     let total = 60_000 * scale;
     for i in (shard..total).step_by(n as usize) {
-        if ctx.past(if is16 { 0.55 } else { 0.8 }) {
+        if ctx.past(if is16 { 0.55 } else if is17 { 0.72 } else { 0.8 }) {
             break;
         }
         let mut r = Rng::for_case(seed, 81, i);
@@ -228,7 +338,7 @@ pub fn run(ctx: &mut Ctx) {
     // ---- G-unwrap layouts (C15 space when wrappers are code)
     let reps = if quick { 8 } else { 80 };
     for rank in (shard..UnwrapParams::count() * reps).step_by(n as usize) {
-        if ctx.past(if is16 { 0.65 } else { 0.97 }) {
+        if ctx.past(if is16 { 0.65 } else if is17 { 0.80 } else { 0.97 }) {
             break;
         }
         let p = UnwrapParams::from_rank(rank % UnwrapParams::count());
@@ -242,7 +352,7 @@ pub fn run(ctx: &mut Ctx) {
     // escaping, regions beyond byte 65 535 and line 10 000
     let total = 40 * scale;
     for i in (shard..total).step_by(n as usize) {
-        if ctx.past(if is16 { 0.7 } else { 0.9 }) {
+        if ctx.past(if is16 { 0.7 } else if is17 { 0.84 } else { 0.9 }) {
             break;
         }
         let mut r = Rng::for_case(seed, 85, i);
@@ -255,9 +365,83 @@ pub fn run(ctx: &mut Ctx) {
         judge_one(ctx, &rd, &sp, &cfg, STEP, "ast-big");
     }
     // ---- bounded-exhaustive line sequences
-    super::docs::lineseq_stage(ctx, if quick { 6 } else { 8 }, if is16 { 0.75 } else { 0.99 }, true, |ctx, rd, sp| {
+    super::docs::lineseq_stage(ctx, if quick { 6 } else { 8 }, if is16 { 0.73 } else if is17 { 0.88 } else { 0.90 }, true, |ctx, rd, sp| {
         judge_one(ctx, rd, sp, &step_cfg(STEP), STEP, "lineseq");
     });
+    // ---- junk atom strings and mutated documents behind the admission gate (documents of the
+    // C02 / C03 space: stray delimiters, unclosed and crossing tags, malformed attributes)
+    {
+        let until = if is16 { 0.78 } else if is17 { 0.93 } else { 1.0 };
+        let sp = short_sp();
+        let atoms = pipeline_atoms(&sp);
+        for len in 1..=(if quick { 4 } else { 5 }) {
+            let mut stop = false;
+            enumerate_sharded(atoms.len(), len, shard, n, |idx| {
+                if stop {
+                    return;
+                }
+                let s: String = idx.iter().map(|i| atoms[*i].as_str()).collect();
+                match admit(&s, &sp, &cfg) {
+                    Ok(rd) => judge_one(ctx, &rd, &sp, &cfg, 1, "junk-atoms"),
+                    Err(why) => ctx.skip(why),
+                }
+                if ctx.evaluations % 512 == 0 && ctx.past(until - 0.03) {
+                    stop = true;
+                }
+            });
+        }
+        let total = 30_000 * scale;
+        for i in (shard..total).step_by(n as usize) {
+            if ctx.past(until) {
+                break;
+            }
+            let (rd0, sp) = super::docs::gen_ast_doc(seed, 89, i, i % 2 == 0, false);
+            let mut r = Rng::for_case(seed, 90, i);
+            let mut s = rd0.text.clone();
+            for _ in 0..1 + r.below(2) {
+                s = mutate(&s, &sp, &mut r);
+            }
+            match admit(&s, &sp, &cfg) {
+                Ok(rd) => judge_one(ctx, &rd, &sp, &cfg, 1, "mutated"),
+                Err(why) => ctx.skip(why),
+            }
+        }
+    }
+    if is17 {
+        // ---- arbitrary text (junk atom strings, mutated documents; no admission gate): the law over
+        // the reported regions needs no reference parse
+        let sps = [short_sp(), Sp::new("|", "|", "tl", "m")];
+        for (k, sp) in sps.iter().enumerate() {
+            let atoms = pipeline_atoms(sp);
+            let frac = 0.93 + 0.02 * k as f64;
+            for len in 1..=(if quick { 4 } else { 5 }) {
+                let mut stop = false;
+                enumerate_sharded(atoms.len(), len, shard, n, |idx| {
+                    if stop {
+                        return;
+                    }
+                    let s: String = idx.iter().map(|i| atoms[*i].as_str()).collect();
+                    law_text(ctx, &s, sp, &cfg, "junk-atoms-law");
+                    if ctx.evaluations % 512 == 0 && ctx.past(frac) {
+                        stop = true;
+                    }
+                });
+            }
+        }
+        let total = 60_000 * scale;
+        for i in (shard..total).step_by(n as usize) {
+            if ctx.out_of_time() {
+                break;
+            }
+            let (rd0, sp) = super::docs::gen_ast_doc(seed, 87, i, i % 2 == 0, false);
+            let mut r = Rng::for_case(seed, 88, i);
+            let mut s = rd0.text.clone();
+            for _ in 0..1 + r.below(3) {
+                s = mutate(&s, &sp, &mut r);
+            }
+            law_text(ctx, &s, &sp, &step_cfg(1 + (i % 4) as u8), "mutated-law");
+        }
+    }
     if is16 {
         // ---- high line numbers: the same documents pushed down by N lines (number column width)
         for (k, npre) in [8usize, 97, 98, 99, 998, 999, 9_998, 99_998, 999_998].iter().enumerate() {
